@@ -37,6 +37,15 @@ def _ckeys(t, nlab):
 def _arg(a):
     if isinstance(a, tuple) and a and a[0] == "dict" and len(a) == 2 and isinstance(a[1], dict):
         return dict(a[1])
+    if isinstance(a, tuple) and a and a[0] == "stale" and len(a) == 4 and isinstance(a[2], dict):
+        # a model with a history: a term on another label was added and cancelled again (no refresh), so the
+        # bookkeeping still lists that label
+        M = cls_of(a[1])()
+        M[(a[3],)] += 1
+        for k, v in a[2].items():
+            M[k] += v
+        M[(a[3],)] -= 1
+        return M
     if isinstance(a, tuple) and a and a[0] == "model" and len(a) >= 3 and isinstance(a[2], dict):
         M = cls_of(a[1])(a[2])
         for name, args, kw in (a[3] if len(a) > 3 else []):
@@ -335,9 +344,12 @@ def _wreck(obj, lab):
                 p.name = "w"
             v.append({})
             del v[0]
-    obj[lab] = 0
-    obj.pop(next(iter(obj)))
-    obj.clear()
+    try:
+        obj[lab] = 0
+        obj.pop(next(iter(obj)))
+        obj.clear()
+    except (TypeError, AttributeError):
+        pass        # a read-only view cannot be wrecked; whether it follows the model is tested separately
 
 
 @clause("C19.getters_independent", "C19", gen=_gen_getters,
@@ -683,7 +695,10 @@ def _gen_anneal(ctx):
                 ts = _rand_terms(rng, keys[1:], 3, 1)
                 if rng.random() < 0.5:
                     ts[()] = rng.choice(COEFS)
-                c = {"solver": s, "arg": ("dict", ts) if t == "dict" else ("model", t, ts), "seed": i,
+                arg = ("dict", ts) if t == "dict" else ("model", t, ts)
+                if t != "dict" and i % 4 == 3:
+                    arg = ("stale", t, ts, 3 if t in MATRIX_TYPES else 'gone')
+                c = {"solver": s, "arg": arg, "seed": i,
                      "num_anneals": rng.choice([1, 2, 3]), "duration": rng.choice([1, 2, 5]),
                      "in_order": rng.random() < 0.5}
                 r = rng.random()
@@ -709,6 +724,9 @@ def check_anneal(case):
     kw = {"num_anneals": case["num_anneals"], "anneal_duration": case["duration"], "seed": case["seed"],
           "in_order": case["in_order"]}
     vs = sorted(variables_of(dict(a)), key=repr)
+    if hasattr(a, "variables"):
+        # an initial state has to cover the variables the model reports (a cancelled one included)
+        vs = sorted(set(vs) | set(a.variables), key=repr)
     if type(a).__name__ in MATRIX_TYPES:
         vs = list(range(max(vs) + 1))
     extra = {}
@@ -726,11 +744,19 @@ def check_anneal(case):
         if isinstance(kw["schedule"], list):
             extra["schedule"] = kw["schedule"]
             kw["anneal_duration"] = len(kw["schedule"])
+    def views(m):
+        return {p: repr(sorted(map(repr, getattr(m, p))) if p == "variables" else getattr(m, p))
+                for p in ("variables", "num_binary_variables", "degree", "max_index", "mapping", "num_terms", "offset")
+                if hasattr(m, p)}
     s = snapshot(a)
     plain = sorted(repr(i) for i in a.items())
+    vw = views(a)
     se = {k: snapshot(v) for k, v in extra.items()}
     fn = getattr(q.sim, "anneal_" + case["solver"])
     fn(a, **kw)
+    if views(a) != vw:
+        return Fail("anneal_%s changed what its %s argument reports: %r -> %r" % (case["solver"], type(a).__name__, vw, views(a)),
+                    key="annealer-mutates-argument-views:anneal_%s:%s" % (case["solver"], type(a).__name__))
     if snapshot(a) != s or sorted(repr(i) for i in a.items()) != plain:
         return Fail("anneal_%s changed its %s argument to %r" % (case["solver"], type(a).__name__, a),
                     key="annealer-mutates-argument:anneal_%s:%s" % (case["solver"], type(a).__name__))
